@@ -66,6 +66,9 @@ class Chunks:
     def __radd__(self, o):
         return Chunks([o, self])
 
+    def splitlines(self, *a):
+        raise SxUnsupported('splitlines on serialised opaque payloads')
+
     def strip(self):
         ps = list(self.parts)
         while ps and isinstance(ps[0], str) and not ps[0].strip():
